@@ -103,7 +103,14 @@ class ResultSet(object):
         # NB: we can't use an intersection function here because
         # self.ids may be a generator
         if isinstance(docids, ResultSet):
-            docids = docids.ids
+            other = docids
+            docids = other.ids
+            if not hasattr(docids, '__len__'):
+                # a one-shot iterator (e.g. a sorted result set): membership
+                # tests would consume it
+                docids = other.ids = list(docids)
+        elif not hasattr(docids, '__contains__'):
+            docids = list(docids)
         filtered_ids = [ x for x in self.ids if x in docids ]
         return self.__class__(filtered_ids, len(filtered_ids), self.resolver)
 
